@@ -447,6 +447,11 @@ Definition cmd_calc_expr (e : expr) : result :=
   | COod => ROod
   end.
 
+(* the exact decimal text of the value, also beyond 2^53 (used to classify finding F16: results
+   that eval_number's f64 conversion rounds) *)
+Definition calc_exact (e : expr) : option str :=
+  match eval_expr e with CInt z => Some (show_Z z) | _ => None end.
+
 (* ------------------------------------------------------------------------------------------- *)
 (* S: plain specifications in executable form (search over all character positions)              *)
 
